@@ -150,6 +150,19 @@ func (m *Monitors) onCommit(n *Node, c Commit, ctx context.Context) {
 	if len(c.Proof) > 0 {
 		pref = protocol.BlockProofReader(c.Proof).BlockRef()
 	}
+	// C20: the block proof generated from the stored COMMIT messages - every signer's signature (verified when its COMMIT was stored)
+	// still verifies over the block reference re-read from the proof bytes
+	if m.on("C20") && len(c.Proof) > 0 {
+		bp := protocol.BlockProofReader(append([]byte{}, c.Proof...))
+		it := bp.NodesIterator()
+		for it.HasNext() {
+			s := it.NextNodes()
+			m.Facts["c20-nested-signatures-checked"]++
+			if !w.Reg.VerifyMsg(primitives.BlockHeight(c.H), bp.BlockRef().Raw(), s.MemberId(), s.Signature()) {
+				m.fail("C20", "block-proof-signature-does-not-verify", "node %d: the block proof handed to the commit callback at height %d lists a signature of %q that does not verify over the proof's block reference (view %d)", n.Idx, c.H, s.MemberId(), bp.BlockRef().View())
+			}
+		}
+	}
 	// C03: strict validation on a different correct node + reference validator
 	if m.on("C03") {
 		var prevBlock interfaces.Block
